@@ -141,11 +141,11 @@ def run_case(case):
         def run_fp(arg, out_path, fasta):
             if via == "api":
                 r = core.call(find_path.run, d + "/g.gfa", arg, output=out_path, fasta=fasta)
-                return r, (core.read_text(out_path) if r[0] == "ok" else None)
+                return r, (core.read_output(out_path, "find_path") if r[0] == "ok" else None)
             argv = ["find_path", d + "/g.gfa", arg] + (["-f"] if fasta else [])
             if via == "cli":
                 r = core.cli(argv + ["-o", out_path])
-                return r, (core.read_text(out_path) if r[0] == "ok" else None)
+                return r, (core.read_output(out_path, "find_path -o") if r[0] == "ok" else None)
             r = core.cli(argv, capture_stdout=True)
             return r, (r[1] if r[0] == "ok" else None)
 
